@@ -78,7 +78,7 @@ CLAIMED.update({
  "C20": _c("proof", "Theorems C20_escaping_not_applied_twice_partial / C20_rel_tokens_not_repeated: the three mechanisms the property names. C20_idempotent_if_attrs_stable: Sanitize(Sanitize(x)) = Sanitize(x) for every x and every policy without comments/raw-text elements whose attribute filter is idempotent on its own output; C20_strict (StrictPolicy) and C20_idempotent_plain_elements (policies whose elements carry no rewritten attribute) discharge that premise. C20_attrs_stable_forced_rejected / C20_idempotent_stable_elements / C20_ugc: the premise holds, under the net/url stability hypothesis U5, for link / URL elements on which the policy allows none of the forced attributes (UGCPolicy for every input without area/del/ins tags). C20_link_passes_idempotent / C20_attrs_stable_forced_accepted_or_rejected / C20_idempotent_stable_elements2: the link and crossorigin passes are idempotent, hence the premise also holds for elements on which the policy allows, unpatterned, every attribute a pass can force on them. C20_refuted_forced_attr_order / C20_refuted_forced_attr_order_crossorigin: the property as stated is false on the current tree (known findings F15, F17: a policy allowing a later-appended forced attribute (target on a, crossorigin on link) but not rel reorders them on the second pass); the witnesses are computed on the model and replayed. C20_idempotent_stable_elements3 / C20_condition_separates: every other combination of unpatterned-allowed / not-allowed forced attributes is proved stable (none of the attributes forced on the element allowed; link with rel but not crossorigin), so within that class the statement is proved or refuted in every case. C20_ugc_no_surviving_url: UGCPolicy is idempotent on every input provided no del/ins cite and no area href survives the first pass (the property's proviso, plus area). C20_class_decided: on every element where no value pattern decides about a rewritten attribute the proved condition holds or the element has the F15 / F17 shape, so the property's class is decided completely (under U5 and style_stable). C20_idempotent_with_styles: elements with style rules are covered as well, under the monitored hypothesis that the style filter returns a value it produced unchanged (derived from a parse-stability statement about douceur). C20_ugc_every_input: with the matchers read as the regexps they were translated from, UGCPolicy is idempotent on every input under that proviso alone (area's patterned rel is closed under the link pass: verified residual exploration). Partial: policies outside the proved combinations are checked by the idempotence oracle on every case of the policy class, link grid (with crossorigin variants) included.",
            "DESIGN.md section 5 C20", TIE_NOTE, "Coq proof of the component idempotence lemmas + differential correspondence + idempotence oracle"),
  "C18": _c("proof", "Theorems C18_regexps_inert / C18_regexps_whole_value / C18_strippers_anchored / C18_keywords_inert / C18_unknown_property: every regexp of css/handlers.go used as a value acceptor matches the whole value and accepts no hostile string (all lengths, by reflection on the regenerated ASTs); "
-           "function-name strippers are anchored; keyword lists contain none of the six characters of which every hostile value needs one (C18_hostile_needs_danger, proved by reflection); the lookup falls back to reject-all. C18_handlers_whole: for 132 handler functions whose body is a disjunction of conditions on the value (regexp acceptors, calls of other such handlers, keyword membership after splitValues or Split, recursiveCheck over sub-handlers that accept only values free of the six characters; 167 of the 213 table entries; shape and helper functions recognised by the translator, models tied to the real handlers by a correspondence run) the whole handler accepts no hostile value of any length. C18_recursive_check_composes: the recursiveCheck block composes (sub-handlers that accept only values free of the six characters give a value free of them, hence not hostile). Partial: the other 37 handler functions are covered by the bounded-exhaustive search the property text describes (all 213 entries, hostile fragments at every position).",
+           "function-name strippers are anchored; keyword lists contain none of the six characters of which every hostile value needs one (C18_hostile_needs_danger, proved by reflection); the lookup falls back to reject-all. C18_handlers_whole: for 141 handler functions whose body is a disjunction of conditions on the value (regexp acceptors, calls of other such handlers, keyword membership after splitValues or Split, recursiveCheck over sub-handlers that accept only values free of the six characters; 180 of the 213 table entries; shape and helper functions recognised by the translator, models tied to the real handlers by a correspondence run) the whole handler accepts no hostile value of any length. C18_recursive_check_composes: the recursiveCheck block composes (sub-handlers that accept only values free of the six characters give a value free of them, hence not hostile). Partial: the other 37 handler functions are covered by the bounded-exhaustive search the property text describes (all 213 entries, hostile fragments at every position).",
            "DESIGN.md section 5 C18", "The translator classifies regexps by use (MatchString vs ReplaceAll/FindString) and recognises the GetDefaultHandler/BaseHandler shapes; the hostile language in Spec/CssInert.v is my reading of the property text. ",
            "Coq proof by reflection (verified regexp emptiness procedure) on translator-regenerated CSS regexps and keyword lists + bounded-exhaustive hostile-fragment search over all default handlers"),
  "C04": _c("proof", "Theorems C04_strict_text_only / C04_ugc_tags / C04_ugc_tables / C04_strict_no_markup / C04_strict_idempotent / C04_ugc_output_tokens / C04_ugc_pass_through over the model's build of the builder scripts regenerated from policies.go and helpers.go: StrictPolicy emits only escaped text; every tag UGCPolicy emits is in the documented vocabulary and not a forbidden element; "
